@@ -127,3 +127,55 @@ package kgo
 //@   site store wireLength#0 assert [new-topic-with-topic-id] (!exists && topicIDs) ==> batchWireLength == $wireLengthForProduceVersion0_0 + 4 + 16 + 1
 //@   site call addBatch#0 assert [frozen-before-it-is-added] batch.frozen && arg5 == batch
 //@   ensures [added-means-accounted] ok ==> reached($wireLengthForProduceVersion0_0) && p.wireLength <= p.wireLengthLimit
+
+// seqRecBatch.appendTo: the fixed header of a v2 record batch, field by field, is what the batch's accounting and
+// the request say: the NULLABLE_BYTES length is the batch's wire length minus its own 4 bytes, the batch length
+// field is that minus first offset and itself, magic 2, attributes carry the transactional bit, lastOffsetDelta is
+// the record count minus one, the two timestamps are the first and first+maxDelta, producer id / epoch are the
+// request's, the sequence is the batch's (0 without idempotence), the record count is the number of records, and
+// the i-th record is serialized with offset delta i. (The compression rewrite and the CRC are not covered.)
+//@ func (b seqRecBatch) appendTo(in []byte, version int16, producerID int64, producerEpoch int16, transactional bool, compressor Compressor) (dst []byte, m ProduceBatchMetrics)
+//@   prop C18
+//@   abstract call appendTo
+//@   site call AppendInt32#0 assert [bytes-length-is-the-accounted-length] arg1 == b.recBatch.wireLength - 4 && arg1 == nullableBytesLen
+//@   site call AppendInt64#0 assert [first-offset-zero] arg1 == 0
+//@   site call AppendInt32#1 assert [batch-length-field] arg1 == nullableBytesLen - 8 - 4
+//@   site call AppendInt32#2 assert [leader-epoch-unused] arg1 == -1
+//@   site call AppendInt8#0 assert [magic-2] arg1 == 2
+//@   site call AppendInt16#0 assert [transactional-bit] arg1 == ite(transactional, int16(16), int16(0))
+//@   site call AppendInt32#4 assert [last-offset-delta] arg1 == int32(len(b.recBatch.records) - 1)
+//@   site call AppendInt64#1 assert [first-timestamp] arg1 == b.recBatch.firstTimestamp
+//@   site call AppendInt64#2 assert [max-timestamp] arg1 == b.recBatch.firstTimestamp + b.recBatch.maxTimestampDelta
+//@   site call AppendInt64#3 assert [producer-id] arg1 == producerID
+//@   site call AppendInt16#1 assert [producer-epoch] arg1 == producerEpoch
+//@   site call AppendInt32#5 assert [sequence] arg1 == ite(producerID < 0, 0, b.seq)
+//@   site call AppendArrayLen#0 assert [record-count] arg1 == len(b.recBatch.records)
+//@   site call appendTo#0 assert [ith-record-at-offset-delta-i] arg2 == int32(i)
+
+// produceRequest.AppendTo: the request-level fields and the per-batch arguments are the request's own; the
+// encoding chosen for topics, arrays and batches is the one of the request's version (message sets below v3, topic
+// ids from v13, compact encodings from v9). (Assumed: nothing changes the request's configuration while it is
+// serialized - `frozen`.)
+//@ func (p *produceRequest) IsFlexible() (f bool)
+//@   prop C18
+//@   nopanic
+//@   pure
+//@   ensures f == (p.version >= 9)
+//@ func (p *produceRequest) AppendTo(dst []byte) (out []byte)
+//@   prop C18
+//@   abstract call appendTo, appendToAsMessageSet
+//@   frozen p.version, p.acks, p.timeout, p.producerID, p.producerEpoch, p.txnID, p.compressor
+//@   site call AppendInt16#0 assert [acks] arg1 == p.acks
+//@   site call AppendInt32#0 assert [timeout] arg1 == p.timeout
+//@   site call AppendInt32#1 assert [partition-number] arg1 == partition
+//@   site call AppendCompactNullableString#0 assert [txn-id-compact-from-v9] arg1 == p.txnID && p.version >= 9
+//@   site call AppendNullableString#0 assert [txn-id-from-v3] arg1 == p.txnID && p.version >= 3 && p.version < 9
+//@   site call AppendString#0 assert [topic-name-below-v9] arg1 == topic && p.version < 9
+//@   site call AppendCompactString#0 assert [topic-name-compact-v9-to-v12] arg1 == topic && p.version >= 9 && p.version < 13
+//@   site call appendToAsMessageSet#0 assert [message-sets-below-v3] p.version < 3 && arg2 == uint8(p.version) && arg3 == p.compressor
+//@   site call appendTo#0 assert [record-batches-from-v3] p.version >= 3 && arg2 == p.version && arg3 == p.producerID && arg4 == p.producerEpoch && arg5 == (p.txnID != nil) && arg6 == p.compressor
+//@   site call AppendCompactArrayLen#0 assert [topic-count-compact-from-v9] arg1 == len(p.batches.bs) && p.version >= 9
+//@   site call AppendArrayLen#0 assert [topic-count-below-v9] arg1 == len(p.batches.bs) && p.version < 9
+//@   site call AppendCompactArrayLen#1 assert [topic-ids-from-v13] p.version >= 13 && arg1 == len(partitions)
+//@   site call AppendCompactArrayLen#2 assert [partition-count-compact-v9-to-v12] p.version >= 9 && p.version < 13 && arg1 == len(partitions)
+//@   site call AppendArrayLen#1 assert [partition-count-below-v9] p.version < 9 && arg1 == len(partitions)
